@@ -61,7 +61,7 @@ VARIANTS = [
     V("neg-inplace", ["C15", "C08"], C, "        newcurve = copy(self)\n        newctrlpoints = [-1 * ctrlpt for ctrlpt in newcurve.ctrlpoints]\n        newcurve.ctrlpoints = newctrlpoints\n        return newcurve", "        newctrlpoints = [-1 * ctrlpt for ctrlpt in self.ctrlpoints]\n        self.ctrlpoints = newctrlpoints\n        return self", "PURE", "__neg__", "operand mutated"),
     V("update-write-before-gate", ["C05", "C15"], C, "        temp_curve = self.__class__(newknotvector)\n        error = temp_curve.fit_curve(self, nodes)", "        temp_curve = self.__class__(newknotvector)\n        self.__knotvector = newknotvector\n        error = temp_curve.fit_curve(self, nodes)", "GATE-TOL", "BaseCurve.update", "write before the tolerance gate"),
     V("memo-second-writer", ["C10"], H, "        assert isinstance(npts, int)\n        assert npts > 1\n        nums = tuple(range(0, npts))", "        assert isinstance(npts, int)\n        assert npts > 1\n        NodeSample.__cheby[npts] = tuple(range(npts))\n        nums = tuple(range(0, npts))", "PURE-MEMO", "_NodeSample__cheby", "second writer of a memo table"),
-    V("span-noguard", ["C01", "C03"], H, "    def span(self, nodes: Union[float, Tuple[float]]) -> Union[int, Tuple[int]]:\n        if not self.valid(nodes):\n            raise ValueError\n", "    def span(self, nodes: Union[float, Tuple[float]]) -> Union[int, Tuple[int]]:\n", "GATE-VALID", "span", "span without its guard"),
+    V("span-noguard", ["C01", "C03"], H, "    def span(self, nodes: Union[float, Tuple[float]]) -> Union[int, Tuple[int]]:\n        try:\n            nodes = tuple(nodes)  # A one-pass iterable is walked only here\n        except TypeError:\n            pass\n        if not self.valid(nodes):\n            raise ValueError\n", "    def span(self, nodes: Union[float, Tuple[float]]) -> Union[int, Tuple[int]]:\n        try:\n            nodes = tuple(nodes)  # A one-pass iterable is walked only here\n        except TypeError:\n            pass\n", "GATE-VALID", "span", "span without its guard"),
     V("newton-no-upper-clamp", ["C20"], A, "            elif tmax < pair[0]:\n                pair[0] = tmax\n", "", "CLAMP", "__newton_bcurve_and_bcurve", "upper clamp of pair[0] removed"),
     V("proj-no-lower-clamp", ["C19"], A, "            if initparam < umin:\n                return (umin,)\n", "", "CLAMP", "__newton_point_on_curve", "lower clamp removed"),
     V("kv-or-nodeepcopy", ["C17", "C15"], K, "    def __or__(self, other: float):\n        return deepcopy(self).__ior__(other)", "    def __or__(self, other: float):\n        return self.__ior__(other)", "PURE", "KnotVector.__or__", "| mutates its left operand"),
@@ -88,7 +88,7 @@ VARIANTS = [
     V("twin-eq-rename", ["C13"], C, "        othercopy = copy(other)\n        othercopy.knotvector = newknotvec\n        for poi, qoi in zip(selfcopy.ctrlpoints, othercopy.ctrlpoints):", "        refined = copy(other)\n        refined.knotvector = newknotvec\n        for poi, qoi in zip(selfcopy.ctrlpoints, refined.ctrlpoints):", None, None, "local renamed", twin=True),
     V("twin-update-ifelse", ["C05", "C06", "C14", "C15"], C, "        if tolerance is not None and error > tolerance:\n            error_msg = \"Cannot update knotvector cause error is \"\n            error_msg += f\" {float(error):.2e} > {tolerance}\"\n            raise ValueError(error_msg)\n        self.__knotvector = newknotvector", "        if not (tolerance is not None and error > tolerance):\n            pass\n        else:\n            error_msg = \"Cannot update knotvector cause error is \"\n            error_msg += f\" {float(error):.2e} > {tolerance}\"\n            raise ValueError(error_msg)\n        self.__knotvector = newknotvector", None, None, "guard written as if/pass/else/raise", twin=True),
     V("twin-add-reorder", ["C08", "C15"], C, "            vecta, vectb = tuple(self.knotvector), tuple(other.knotvector)\n            matra, matrb = heavy.MathOperations.add_spline_curve(vecta, vectb)\n            curve = Curve(self.knotvector | other.knotvector)", "            vectb = tuple(other.knotvector)\n            vecta = tuple(self.knotvector)\n            curve = Curve(self.knotvector | other.knotvector)\n            matra, matrb = heavy.MathOperations.add_spline_curve(vecta, vectb)", None, None, "independent statements reordered", twin=True),
-    V("twin-span-helper", ["C01", "C03"], H, "    def span(self, nodes: Union[float, Tuple[float]]) -> Union[int, Tuple[int]]:\n        if not self.valid(nodes):\n            raise ValueError\n", "    def span(self, nodes: Union[float, Tuple[float]]) -> Union[int, Tuple[int]]:\n        ok = self.valid(nodes)\n        if not ok:\n            raise ValueError(\"node outside the interval\")\n", None, None, "guard through a local", twin=True),
+    V("twin-span-helper", ["C01", "C03"], H, "    def span(self, nodes: Union[float, Tuple[float]]) -> Union[int, Tuple[int]]:\n        try:\n            nodes = tuple(nodes)  # A one-pass iterable is walked only here\n        except TypeError:\n            pass\n        if not self.valid(nodes):\n            raise ValueError\n", "    def span(self, nodes: Union[float, Tuple[float]]) -> Union[int, Tuple[int]]:\n        try:\n            nodes = tuple(nodes)  # A one-pass iterable is walked only here\n        except TypeError:\n            pass\n        ok = self.valid(nodes)\n        if not ok:\n            raise ValueError(\"node outside the interval\")\n", None, None, "guard through a local", twin=True),
     V("twin-apply-dot", ["C04", "C06", "C15", "C16"], C, "            newctrlpoints = np.dot(matrix, oldctrlpoints)\n        else:", "            newctrlpoints = np.array(matrix) @ oldctrlpoints\n        else:", None, None, "np.dot written as @", twin=True),
     V("twin-knotclean-tuple", ["C14"], C, "        nodes = tuple(set(nodes) - set(self.knotvector.limits))\n        for knot in nodes:", "        limits = set(self.knotvector.limits)\n        nodes = [knot for knot in set(nodes) if knot not in limits]\n        for knot in nodes:", None, None, "set difference written as a comprehension", twin=True),
     V("twin-memo-rename", ["C10"], H, "        if npts not in IntegratorArray.__open_newton:\n            nodes = NodeSample.open_linspace(npts, Fraction)\n            weights = IntegratorArray.bezier_integrator_array(nodes)\n            IntegratorArray.__open_newton[npts] = weights", "        if npts not in IntegratorArray.__open_newton:\n            abscissae = NodeSample.open_linspace(npts, Fraction)\n            IntegratorArray.__open_newton[npts] = IntegratorArray.bezier_integrator_array(abscissae)", None, None, "locals renamed / inlined in an accessor", twin=True),
@@ -395,6 +395,9 @@ VARIANTS += [
     V("eval-zero-from-last-node", ["C01"], H, "    result = np.zeros((npts, len(nodes)), dtype=\"object\")\n", "    result = np.zeros((npts, len(nodes)), dtype=\"object\") + 0 * nodes[-1]\n", "NODE-EACH", "eval_spline_nodes", "typed zero taken from the last node"),
     V("rev-F51", ["C03"], H, "        try:\n            nodes = tuple(nodes)  # A one-pass iterable is walked only here\n        except TypeError:\n            pass\n        if not self.valid(nodes):\n            raise ValueError\n        try:\n            return tuple(map(self.span, nodes))\n", "        if not self.valid(nodes):\n            raise ValueError\n        try:\n            return tuple(map(self.span, nodes))\n", "WALK-ONCE", "span", "nodes walked by valid() and again by map()"),
     V("twin-span-materialise-list", ["C03", "C01"], H, "        try:\n            nodes = tuple(nodes)  # A one-pass iterable is walked only here\n        except TypeError:\n            pass\n        if not self.valid(nodes):\n            raise ValueError\n        try:\n            return tuple(map(self.span, nodes))\n", "        try:\n            nodes = list(nodes)\n        except TypeError:\n            pass\n        if not self.valid(nodes):\n            raise ValueError\n        try:\n            return tuple(map(self.span, nodes))\n", None, None, "nodes materialised as a list", twin=True),
+    V("rev-F52", ["C08", "C16"], C, "            ctrlpoints = np.array(matra, dtype=\"object\") @ self.ctrlpoints\n", "            ctrlpoints = np.array(matra) @ self.ctrlpoints\n", "INT-MATRIX", "__add__", "transformation matrix of A + B converted without dtype=object"),
+    V("rev-F52-heavy", ["C08"], H, "        finalresult = np.array(matrix_knotins, dtype=\"object\") @ matrix_deginc\n", "        finalresult = np.array(matrix_knotins) @ matrix_deginc\n", "INT-MATRIX", "matrix_transformation", "matrix product of the two transformations in int64"),
+    V("twin-add-object-matrices-local", ["C08", "C16"], C, "            ctrlpoints = np.array(matra, dtype=\"object\") @ self.ctrlpoints\n            ctrlpoints = ctrlpoints + np.array(matrb, dtype=\"object\") @ other.ctrlpoints\n", "            matra = np.array(matra, dtype=object)\n            matrb = np.array(matrb, dtype=object)\n            ctrlpoints = matra @ self.ctrlpoints\n            ctrlpoints = ctrlpoints + matrb @ other.ctrlpoints\n", None, None, "object matrices through locals", twin=True),
     V("twin-derivative-rows-generator", ["C09"], H, "        rows = [\n            i\n            for i in range(knotvector.npts)\n            if knotvector[i + degree] != knotvector[i]\n        ]\n        matrix = np.transpose(matrix)[rows]\n", "        rows = list(i for i in range(1, knotvector.npts) if knotvector[i] < knotvector[i + degree])\n        matrix = np.transpose(matrix)[rows]\n", None, None, "rows selected with a generator and a strict comparison", twin=True),
 ]
 
